@@ -30,8 +30,10 @@ const (
 
 var modeNames = [...]string{"direct-invoke", "direct-stream", "graph-invoke", "graph-stream", "graph-stream-concat"}
 
-func streamMode(m int) bool { return m == mDirectStream || m == mGraphStream || m == mGraphStreamConcat }
-func graphMode(m int) bool  { return m >= mGraphInvoke }
+func streamMode(m int) bool {
+	return m == mDirectStream || m == mGraphStream || m == mGraphStreamConcat
+}
+func graphMode(m int) bool { return m >= mGraphInvoke }
 
 type msgList = []*schema.Message
 
@@ -766,6 +768,30 @@ func (k *checker) newRun(e *env, plan []action, perm []int, mode int, serial boo
 	return newRun(keys, ids, noBody, plan, schedule(c, perm, streamMode(mode), serial, rng), big)
 }
 
+// normalizePlan gives calls that cannot be told apart (same tool, same
+// arguments, same call id) the same planned action: which of them a body serves
+// is not observable, so a plan that treats them differently would not be well
+// defined per call. The action of the first such call that is not "ok" wins.
+// Reports whether it changed the plan.
+func normalizePlan(c *caseSpec, plan []action) bool {
+	same := func(i, j int) bool {
+		return c.Calls[i].Key == c.Calls[j].Key && c.Calls[i].ID == c.Calls[j].ID && c.Calls[i].Name == c.Calls[j].Name
+	}
+	changed := false
+	for i := range c.Calls {
+		if plan[i] == actOK {
+			continue
+		}
+		for j := range c.Calls {
+			if j != i && same(i, j) && plan[j] != plan[i] {
+				plan[j] = plan[i]
+				changed = true
+			}
+		}
+	}
+	return changed
+}
+
 func isIdentity(p []int) bool {
 	for i, x := range p {
 		if i != x {
@@ -912,6 +938,14 @@ func (k *checker) runCase(e *env, rng *mon.Rand, thorough bool) {
 				}
 			}
 		}
+		if normalizePlan(c, plan) {
+			failing = failing[:0]
+			for i, a := range plan {
+				if a != actOK {
+					failing = append(failing, i)
+				}
+			}
+		}
 		rs := k.newRun(e, plan, rng.Perm(n), mode, rng.Bool(), rng)
 		o := k.run(e, mode, false, rs)
 		rep.AddEvaluations(1)
@@ -937,6 +971,7 @@ func (k *checker) runCase(e *env, rng *mon.Rand, thorough bool) {
 			}
 			plan := make([]action, n)
 			plan[slot] = actPanic
+			normalizePlan(c, plan)
 			rs := k.newRun(e, plan, rng.Perm(n), mode, rng.Bool(), rng)
 			o := k.run(e, mode, false, rs)
 			rep.AddEvaluations(1)
